@@ -80,7 +80,7 @@ func (g *gen) guardCond(st *State, fa *fieldAccess, write bool) (string, string)
 	if write {
 		c = app("=", held, "1")
 	} else {
-		c = app(">=", held, "1")
+		c = not(app("=", held, "0"))
 	}
 	return or(c, g.isFreshHere(fa.base)), lockField
 }
@@ -102,7 +102,9 @@ func (g *gen) load(fr *frame, n *node, st *State, addr ssa.Value, pos token.Pos)
 			if s, ok := v.(string); ok {
 				// an unsynchronised read may observe anything
 				fv := g.c.fresh("racy."+fa.field.Name(), sortOf(fa.field.Type()))
-				v = app("ite", gc, s, fv)
+				ld := g.c.fresh("ld."+fa.field.Name(), sortOf(fa.field.Type()))
+				n.assume(app("=", ld, app("ite", gc, s, fv)))
+				v = ld
 			}
 		}
 		for _, a := range valTypeInv(g, v, fa.field.Type(), st) {
@@ -338,6 +340,7 @@ func (g *gen) execInstr(fr *frame, cur *node, st *State, ins ssa.Instruction) *n
 		g.safety(cur, "nil", "", x.Pos(), not(app("=", ch, "null")))
 		m := g.svGet(st, "$sent", "(Array Ref Int)")
 		g.svAssign(cur, st, "$sent", "(Array Ref Int)", app("store", m, ch, app("+", app("select", m, ch), "1")))
+		g.svAssign(cur, st, "$sent_total", "Int", app("+", g.svGet(st, "$sent_total", "Int"), "1"))
 	case *ssa.Go:
 		// spawn: the callee's precondition must hold; its effects happen asynchronously
 		_, cur = g.execCall(fr, cur, st, x.Common(), x.Pos(), nil)
@@ -408,6 +411,7 @@ func (g *gen) execUnOp(fr *frame, cur *node, st *State, x *ssa.UnOp) *node {
 		ch := g.sval(fr, x.X)
 		m := g.svGet(st, "$recv", "(Array Ref Int)")
 		g.svAssign(cur, st, "$recv", "(Array Ref Int)", app("store", m, ch, app("+", app("select", m, ch), "1")))
+		g.svAssign(cur, st, "$recv_total", "Int", app("+", g.svGet(st, "$recv_total", "Int"), "1"))
 		// a blocking receive lets other goroutines run: nothing about unlocked shared state survives,
 		// which is already the case (guarded reads need the lock)
 		el := x.X.Type().Underlying().(*types.Chan).Elem()
